@@ -8,7 +8,7 @@ import re
 from .runner import Hit
 from .gen_exec import ORDERED
 
-BLK = re.compile(r"^h=(\d+) rc=\[(.*?)\] counter=\{(.*?)\} timeout=\{(.*?)\} multi=\{(.*?)\}(?: ## (.*))?$")
+BLK = re.compile(r"^h=(\d+) rc=\[(.*?)\] counter=\{(.*?)\} timeout=\{(.*?)\} multi=\{(.*?)\}(?: route=\{(.*?)\})?(?: ## (.*))?$")
 
 
 def parse_lists(s):
@@ -87,7 +87,8 @@ def parse_trace(h, obs):
                 b.counter = {k: [tuple(int(y) for y in x.split("/")) for x in v] for k, v in parse_lists(m.group(3)).items()}
                 b.timeout = parse_lists(m.group(4))
                 b.multi = parse_lists(m.group(5))
-                rest = m.group(6) or ""
+                b.route = m.group(6) or ""
+                rest = m.group(7) or ""
                 rm = re.search(r"rawtimeout=\{(.*?)\} rawmulti=\{(.*?)\}", rest)
                 b.rawtimeout = parse_lists(rm.group(1)) if rm else {}
                 b.rawmulti = parse_lists(rm.group(2)) if rm else {}
